@@ -350,9 +350,9 @@ func (c *vfCfg) Args() []string {
 		a = append(a, "--provider=google", "--login-url=http://"+vfIdpHost+"/authorize", "--redeem-url=http://"+vfIdpHost+"/token",
 			"--validate-url=http://"+vfIdpHost+"/plain/validate")
 	case "azure":
-		// the (deprecated, still shipped) Azure AD provider against the FakeIdP's OAuth2 endpoints; v1 endpoints: no Graph groups
-		a = append(a, "--provider=azure", "--login-url=http://"+vfIdpHost+"/authorize", "--redeem-url=http://"+vfIdpHost+"/token",
-			"--profile-url=http://"+vfIdpHost+"/userinfo")
+		// the (deprecated, still shipped) Azure AD provider against the FakeIdP; v1 endpoints: no Graph groups
+		// (endpoints and keys come from discovery; the profile URL is the discovered userinfo endpoint)
+		a = append(a, "--provider=azure", "--oidc-issuer-url=http://"+vfIdpHost)
 	case "keycloak-oidc":
 		a = append(a, "--provider=keycloak-oidc", "--oidc-issuer-url=http://"+vfIdpHost, fmt.Sprintf("--insecure-oidc-skip-nonce=%v", c.SkipNonce))
 	case "plain":
